@@ -5,4 +5,4 @@ import sys
 sys.path[:0] = ['/repo' + "/pulser-core", '/repo' + "/pulser-simulation", "/verif"]
 from symx.replay import replay
 sys.exit(replay(check='checks.c09', kernel='atomic', shape={'device': 'virt_maxseq', 'prefix': 'p1', 'ops': ['add_g', 'target']},
-                assignment={'pd0/k': 2, 'pd1/k': 977, 'buf#1.start': 0, 'buf#1.end': 0, 'buf#2.start': 0, 'buf#2.end': 1, 'd0': 1, 'a0': '4702873571728431/281474976710656', 'det0': 0, 'buf#5.start': 0, 'buf#5.end': 21, 'buf#6.start': 0, 'buf#6.end': 0}, label='atomic:target#1'))
+                assignment={'pd0/k': 3, 'pd1/k': 981, 'buf#1.start': 0, 'buf#1.end': 1, 'buf#2.start': 0, 'buf#2.end': 0, 'd0': 1, 'a0': '4702873571728431/281474976710656', 'det0': 0, 'buf#5.start': 0, 'buf#5.end': 0, 'buf#6.start': 0, 'buf#6.end': 1}, label='atomic:target#1'))
